@@ -3,21 +3,21 @@
 A digit string is a byte string; `digit_of(b, c)` is the digit a character stands for (-1: not a digit), `char_of(b, d)`
 the character of a digit.  Values are big-endian (first character most significant).  The *leading-zero count* is the
 number of non-empty prefixes whose value is 0, which is how to_long counts them."""
-from pyvc.api import spec, implies, lemma, axiom, Int, Bytes
+from pyvc.api import spec, implies, lemma, axiom, Int, Bytes, unfold
 from spec.core import *
 
 B58 = b"123456789ABCDEFGHJKLMNPQRSTUVWXYZabcdefghijkmnopqrstuvwxyz"
 B58_INDEX = dict((c, i) for i, c in enumerate(B58))
 
 
-@spec
+@spec(opaque=True, args=['int', 'int'], ret='int')
 def digit_of(b, c):
     if b == 256:
         return c
     return B58_INDEX.get(c, -1)
 
 
-@spec
+@spec(opaque=True, args=['int', 'int'], ret='int')
 def char_of(b, d):
     if b == 256:
         return d
@@ -77,3 +77,350 @@ def digits_ok_prefix(b, s, n, i):
     if i < n:
         digits_ok_prefix(b, s, n - 1, i)
     return implies(digits_ok_upto(b, s, n) and 0 <= i and i <= n, digits_ok_upto(b, s, i))
+
+
+# ---------------------------------------------------------------- towards decode(encode(s)) == s
+@spec(rec=True, args=['int', 'int'], ret='int', post=lambda b, k, result: result >= 1)
+def powb(b, k):
+    if k <= 0:
+        return 1
+    return b * powb(b, k - 1)
+
+
+@spec(rec=True, args=['int', 'bytes', 'int'], ret='int')
+def lval_upto(b, x, i):
+    """value of the first i characters of x read as base-b digits, least significant first"""
+    if i <= 0:
+        return 0
+    return lval_upto(b, x, i - 1) + digit_of(b, x[i - 1]) * powb(b, i - 1)
+
+
+def _base_lemmas(B):
+    """the lemma family for one concrete base (arithmetic stays linear in everything but powb(B, k) * digit)"""
+    sfx = str(B)
+
+    def dval_prefix(t, u, i):
+        """the value of the first i characters does not depend on what follows them"""
+        if i > 0:
+            dval_prefix(t, u, i - 1)
+        return implies(0 <= i and i <= len(t), dval_upto(B, t + u, i) == dval_upto(B, t, i))
+    dval_prefix.__name__ = "dval_prefix" + sfx
+    dval_prefix = lemma(sig=dict(t=Bytes(), u=Bytes(), i=Int(0)), induct=lambda t, u, i: i, props=["C11"])(dval_prefix)
+
+    def lval_prefix(t, u, i):
+        if i > 0:
+            lval_prefix(t, u, i - 1)
+        return implies(0 <= i and i <= len(t), lval_upto(B, t + u, i) == lval_upto(B, t, i))
+    lval_prefix.__name__ = "lval_prefix" + sfx
+    lval_prefix = lemma(sig=dict(t=Bytes(), u=Bytes(), i=Int(0)), induct=lambda t, u, i: i, props=["C11"])(lval_prefix)
+
+    def lval_shift(c, y, i):
+        """prepending a least significant digit: lval([c] + y, i + 1) == D(c) + B * lval(y, i)"""
+        if i > 0:
+            lval_shift(c, y, i - 1)
+        return implies(0 <= i and i <= len(y), lval_upto(B, bytes([c]) + y, i + 1) == digit_of(B, c) + B * lval_upto(B, y, i))
+    lval_shift.__name__ = "lval_shift" + sfx
+    lval_shift = lemma(sig=dict(c=Int(0, 255), y=Bytes(), i=Int(0)), induct=lambda c, y, i: i, props=["C11"])(lval_shift)
+    def digit_char(d):
+        """the digit of the character of a digit is that digit (the two tables are inverse on 0..B-1)"""
+        unfold(digit_of, B, char_of(B, d))
+        unfold(char_of, B, d)
+        return implies(0 <= d and d < B, digit_of(B, char_of(B, d)) == d and 0 <= char_of(B, d) and char_of(B, d) < 256)
+    digit_char.__name__ = "digit_char" + sfx
+    digit_char = lemma(sig=dict(d=Int(0, B - 1)), props=["C11"])(digit_char)
+
+    def dval_rev(x):
+        """big-endian value of the reversal == little-endian value"""
+        if len(x) > 0:
+            y = x[1:]
+            dval_rev(y)
+            dval_prefix(seq_reverse(y), x[:1], len(y))
+            lval_shift(x[0], y, len(y))
+        return dval_upto(B, seq_reverse(x), len(x)) == lval_upto(B, x, len(x))
+    dval_rev.__name__ = "dval_rev" + sfx
+    dval_rev = lemma(sig=dict(x=Bytes()), induct=lambda x: len(x), props=["C11"])(dval_rev)
+
+    def lval_lsd(v):
+        """the least-significant-first digit string of v has value v"""
+        if v > 0:
+            lval_lsd(v // B)
+            digit_char(v % B)
+            lval_shift(char_of(B, v % B), lsd_chars(B, v // B), len(lsd_chars(B, v // B)))
+        return lval_upto(B, lsd_chars(B, v), len(lsd_chars(B, v))) == v
+    lval_lsd.__name__ = "lval_lsd" + sfx
+    lval_lsd = lemma(sig=dict(v=Int(0)), induct=lambda v: v, props=["C11"])(lval_lsd)
+
+    def lval_pad(x, z):
+        """zero digits behind the most significant end do not change the value"""
+        if z > 0:
+            lval_pad(x, z - 1)
+            digit_char(0)
+            lval_prefix(x + repeat_byte(char_of(B, 0), z - 1), bytes([char_of(B, 0)]), len(x) + z - 1)
+        return lval_upto(B, x + repeat_byte(char_of(B, 0), z), len(x) + z) == lval_upto(B, x, len(x))
+    lval_pad.__name__ = "lval_pad" + sfx
+    lval_pad = lemma(sig=dict(x=Bytes(), z=Int(0)), induct=lambda x, z: z, props=["C11"])(lval_pad)
+
+    def positional_value(v, z):
+        """the text of v behind z zero digits has value v"""
+        x = lsd_chars(B, v)
+        dval_rev(x + repeat_byte(char_of(B, 0), z))
+        lval_pad(x, z)
+        lval_lsd(v)
+        t = positional(B, v, z)
+        return dval_upto(B, t, len(t)) == v
+    positional_value.__name__ = "positional_value" + sfx
+    positional_value = lemma(sig=dict(v=Int(0), z=Int(0)), props=["C11"])(positional_value)
+    # ---- every character of the positional text is a digit
+    def ok_prefix(t, u, i):
+        if i > 0:
+            ok_prefix(t, u, i - 1)
+        return implies(0 <= i and i <= len(t), digits_ok_upto(B, t + u, i) == digits_ok_upto(B, t, i))
+    ok_prefix.__name__ = "ok_prefix" + sfx
+    ok_prefix = lemma(sig=dict(t=Bytes(), u=Bytes(), i=Int(0)), induct=lambda t, u, i: i, props=["C11"])(ok_prefix)
+
+    def ok_shift(c, y, i):
+        if i > 0:
+            ok_shift(c, y, i - 1)
+        return implies(0 <= i and i <= len(y), digits_ok_upto(B, bytes([c]) + y, i + 1)
+                       == (digit_of(B, c) >= 0 and digit_of(B, c) < B and digits_ok_upto(B, y, i)))
+    ok_shift.__name__ = "ok_shift" + sfx
+    ok_shift = lemma(sig=dict(c=Int(0, 255), y=Bytes(), i=Int(0)), induct=lambda c, y, i: i, props=["C11"])(ok_shift)
+
+    def ok_rev(x):
+        if len(x) > 0:
+            y = x[1:]
+            ok_rev(y)
+            ok_prefix(seq_reverse(y), x[:1], len(y))
+            ok_shift(x[0], y, len(y))
+        return digits_ok_upto(B, seq_reverse(x), len(x)) == digits_ok_upto(B, x, len(x))
+    ok_rev.__name__ = "ok_rev" + sfx
+    ok_rev = lemma(sig=dict(x=Bytes()), induct=lambda x: len(x), props=["C11"])(ok_rev)
+
+    def ok_lsd(v):
+        if v > 0:
+            ok_lsd(v // B)
+            digit_char(v % B)
+            ok_shift(char_of(B, v % B), lsd_chars(B, v // B), len(lsd_chars(B, v // B)))
+        return digits_ok_upto(B, lsd_chars(B, v), len(lsd_chars(B, v)))
+    ok_lsd.__name__ = "ok_lsd" + sfx
+    ok_lsd = lemma(sig=dict(v=Int(0)), induct=lambda v: v, props=["C11"])(ok_lsd)
+
+    def ok_pad(x, z):
+        if z > 0:
+            ok_pad(x, z - 1)
+            digit_char(0)
+            ok_prefix(x + repeat_byte(char_of(B, 0), z - 1), bytes([char_of(B, 0)]), len(x) + z - 1)
+        return digits_ok_upto(B, x + repeat_byte(char_of(B, 0), z), len(x) + z) == digits_ok_upto(B, x, len(x))
+    ok_pad.__name__ = "ok_pad" + sfx
+    ok_pad = lemma(sig=dict(x=Bytes(), z=Int(0)), induct=lambda x, z: z, props=["C11"])(ok_pad)
+
+    def positional_ok(v, z):
+        x = lsd_chars(B, v)
+        ok_rev(x + repeat_byte(char_of(B, 0), z))
+        ok_pad(x, z)
+        ok_lsd(v)
+        t = positional(B, v, z)
+        return digits_ok_upto(B, t, len(t))
+    positional_ok.__name__ = "positional_ok" + sfx
+    positional_ok = lemma(sig=dict(v=Int(0), z=Int(0)), props=["C11"])(positional_ok)
+
+    def ok_at(t, n, i):
+        """digits up to n: each of them is one"""
+        if i < n - 1:
+            ok_at(t, n - 1, i)
+        return implies(digits_ok_upto(B, t, n) and 0 <= i and i < n and n <= len(t), 0 <= digit_of(B, t[i]) and digit_of(B, t[i]) < B)
+    ok_at.__name__ = "ok_at" + sfx
+    ok_at = lemma(sig=dict(t=Bytes(), n=Int(0), i=Int(0)), induct=lambda t, n, i: n, props=["C11"])(ok_at)
+    # ---- the number of leading zero digits of the positional text
+    def rev_index(x, i):
+        """element i of the reversal is element len-1-i"""
+        if len(x) > 0 and i < len(x) - 1:
+            rev_index(x[1:], i)
+        return implies(0 <= i and i < len(x), seq_reverse(x)[i] == x[len(x) - 1 - i])
+    rev_index.__name__ = "rev_index" + sfx
+    rev_index = lemma(sig=dict(x=Bytes(), i=Int(0)), induct=lambda x, i: len(x), props=["C11"])(rev_index)
+
+    def rep_elem(c, n, i):
+        if n > 0 and i < n - 1:
+            rep_elem(c, n - 1, i)
+        return implies(0 <= i and i < n, repeat_byte(c, n)[i] == c)
+    rep_elem.__name__ = "rep_elem" + sfx
+    rep_elem = lemma(sig=dict(c=Int(0, 255), n=Int(0), i=Int(0)), induct=lambda c, n, i: n, props=["C11"])(rep_elem)
+
+    def lsd_msd(v):
+        """the most significant digit of a positive number is not zero"""
+        if v >= B:
+            lsd_msd(v // B)
+        digit_char(v % B)
+        d = lsd_chars(B, v)
+        return implies(v > 0, len(d) >= 1 and digit_of(B, d[len(d) - 1]) > 0)
+    lsd_msd.__name__ = "lsd_msd" + sfx
+    lsd_msd = lemma(sig=dict(v=Int(0)), induct=lambda v: v, props=["C11"])(lsd_msd)
+
+    def pos_char(v, z, i):
+        """character i of the positional text: a zero digit for i < z, then the most significant digit of v"""
+        x = lsd_chars(B, v)
+        n = len(x) + z
+        rev_index(x + repeat_byte(char_of(B, 0), z), i)
+        rep_elem(char_of(B, 0), z, n - 1 - i - len(x))
+        digit_char(0)
+        lsd_msd(v)
+        t = positional(B, v, z)
+        return (len(t) == n, implies(0 <= i and i < z, t[i] == char_of(B, 0) and digit_of(B, t[i]) == 0),
+                implies(i == z and v > 0, digit_of(B, t[i]) > 0))
+    pos_char.__name__ = "pos_char" + sfx
+    pos_char = lemma(sig=dict(v=Int(0), z=Int(0), i=Int(0)), props=["C11"])(pos_char)
+
+    def pos_prefix_zero(v, z, i):
+        """the first z characters are zero digits: prefixes up to there have value zero and are all counted"""
+        if i > 0:
+            pos_prefix_zero(v, z, i - 1)
+            pos_char(v, z, i - 1)
+        t = positional(B, v, z)
+        return implies(0 <= i and i <= z, dval_upto(B, t, i) == 0 and zpre_upto(B, t, i) == i)
+    pos_prefix_zero.__name__ = "pos_prefix_zero" + sfx
+    pos_prefix_zero = lemma(sig=dict(v=Int(0), z=Int(0), i=Int(0)), induct=lambda v, z, i: i, props=["C11"])(pos_prefix_zero)
+
+    def pos_prefix_pos(v, z, i):
+        """behind the zero digits the value is positive and no further prefix is counted"""
+        t = positional(B, v, z)
+        if i > z + 1:
+            pos_prefix_pos(v, z, i - 1)
+        pos_prefix_zero(v, z, z)
+        pos_char(v, z, z)
+        positional_ok(v, z)
+        ok_at(t, len(t), i - 1)
+        return implies(v > 0 and z < i and i <= len(t), dval_upto(B, t, i) > 0 and zpre_upto(B, t, i) == z)
+    pos_prefix_pos.__name__ = "pos_prefix_pos" + sfx
+    pos_prefix_pos = lemma(sig=dict(v=Int(0), z=Int(0), i=Int(0)), induct=lambda v, z, i: i, props=["C11"])(pos_prefix_pos)
+
+    def positional_zeros(v, z):
+        """the positional text of v behind z zero digits has exactly z leading zero digits"""
+        t = positional(B, v, z)
+        pos_prefix_zero(v, z, z)
+        pos_prefix_pos(v, z, len(t))
+        pos_char(v, z, 0)
+        lsd_msd(v)
+        return zpre_upto(B, t, len(t)) == z
+    positional_zeros.__name__ = "positional_zeros" + sfx
+    positional_zeros = lemma(sig=dict(v=Int(0), z=Int(0)), props=["C11"])(positional_zeros)
+    return dict(dval_prefix=dval_prefix, lval_prefix=lval_prefix, lval_shift=lval_shift, digit_char=digit_char, dval_rev=dval_rev,
+                lval_lsd=lval_lsd, lval_pad=lval_pad, positional_value=positional_value, ok_prefix=ok_prefix, ok_shift=ok_shift,
+                ok_rev=ok_rev, ok_lsd=ok_lsd, ok_pad=ok_pad, positional_ok=positional_ok, ok_at=ok_at, rev_index=rev_index,
+                rep_elem=rep_elem, lsd_msd=lsd_msd, pos_char=pos_char, pos_prefix_zero=pos_prefix_zero, pos_prefix_pos=pos_prefix_pos,
+                positional_zeros=positional_zeros)
+
+
+L58 = _base_lemmas(58)
+L256 = _base_lemmas(256)
+
+
+# ---------------------------------------------------------------- a byte string is the positional text (base 256) of its value
+BS = Bytes()
+
+
+@lemma(sig=dict(s=BS, i=Int(0)), induct=lambda s, i: i, props=["C11"])
+def dval256_nonneg(s, i):
+    if i > 0:
+        dval256_nonneg(s, i - 1)
+    unfold(digit_of, 256, s[i - 1])
+    return implies(0 <= i and i <= len(s), dval_upto(256, s, i) >= 0)
+
+
+@lemma(sig=dict(t=BS, u=BS, i=Int(0)), induct=lambda t, u, i: i, props=["C11"])
+def zpre_prefix256(t, u, i):
+    if i > 0:
+        zpre_prefix256(t, u, i - 1)
+        L256['dval_prefix'](t, u, i)
+    return implies(0 <= i and i <= len(t), zpre_upto(256, t + u, i) == zpre_upto(256, t, i))
+
+
+@lemma(sig=dict(s=BS, n=Int(0)), induct=lambda s, n: n, props=["C11"])
+def zeros_string(s, n):
+    """a prefix of value zero consists of zero bytes, and every one of its prefixes is counted as a leading zero"""
+    if n > 0:
+        zeros_string(s, n - 1)
+        dval256_nonneg(s, n - 1)
+    unfold(digit_of, 256, s[n - 1])
+    return implies(0 <= n and n <= len(s) and dval_upto(256, s, n) == 0, s[:n] == repeat_byte(0, n) and zpre_upto(256, s, n) == n)
+
+
+@lemma(sig=dict(n=Int(0)), props=["C11"])
+def rev_zeros(n):
+    """a run of zero bytes reads the same backwards (through its value, not through word equations)"""
+    r = seq_reverse(repeat_byte(0, n))
+    L256['dval_rev'](repeat_byte(0, n))
+    L256['lval_pad'](b"", n)
+    unfold(char_of, 256, 0)
+    zeros_string(r, n)
+    return r == repeat_byte(0, n)
+
+
+@lemma(sig=dict(c=Int(0, 255), y=BS), props=["C11"])
+def rev_cons(c, y):
+    """reverse([c] + y) == reverse(y) + [c]  (one unfolding of the definition)"""
+    return seq_reverse(bytes([c]) + y) == seq_reverse(y) + bytes([c])
+
+
+@lemma(sig=dict(s=BS), props=["C11"])
+def round256_zero(s):
+    """a string of value zero is the positional text of (0, its length)"""
+    n = len(s)
+    zeros_string(s, n)
+    rev_zeros(n)
+    unfold(char_of, 256, 0)
+    unfold(lsd_chars, 256, 0)
+    return implies(dval_upto(256, s, n) == 0, positional(256, 0, zpre_upto(256, s, n)) == s)
+
+
+@lemma(sig=dict(s=BS), induct=lambda s: len(s), props=["C11"])
+def round256(s):
+    """s == positional text in base 256 of (its value, its number of leading zero bytes)"""
+    n = len(s)
+    v = dval_upto(256, s, n)
+    z = zpre_upto(256, s, n)
+    round256_zero(s)
+    if n > 0:
+        t = s[:n - 1]
+        c = s[n - 1]
+        round256(t)
+        L256['dval_prefix'](t, s[n - 1:], n - 1)
+        zpre_prefix256(t, s[n - 1:], n - 1)
+        dval256_nonneg(s, n - 1)
+        unfold(digit_of, 256, c)
+        unfold(char_of, 256, v % 256)
+        unfold(char_of, 256, 0)
+        rev_cons(c, lsd_chars(256, v // 256) + repeat_byte(0, z))
+    return positional(256, v, z) == s
+
+
+@lemma(sig=dict(c=Int(0, 255)), props=["C11"])
+def digit_ascii58(c):
+    """only ASCII characters are Base58 digits"""
+    unfold(digit_of, 58, c)
+    return implies(digit_of(58, c) >= 0, 0 <= c and c < 128)
+
+
+@lemma(sig=dict(t=BS, i=Int(0)), induct=lambda t, i: i, props=["C11"])
+def ok_ascii58(t, i):
+    if i > 0:
+        ok_ascii58(t, i - 1)
+        digit_ascii58(t[i - 1])
+    return implies(0 <= i and i <= len(t) and digits_ok_upto(58, t, i), ascii_upto(t, i))
+
+
+@lemma(sig=dict(s=BS), props=["C11"])
+def base58_roundtrip_spec(s):
+    """at the level of the definitions: the Base58 text of s consists of digits, is ASCII, and denotes s"""
+    n = len(s)
+    v = dval_upto(256, s, n)
+    z = zpre_upto(256, s, n)
+    dval256_nonneg(s, n)
+    t = positional(58, v, z)
+    L58['positional_value'](v, z)
+    L58['positional_ok'](v, z)
+    L58['positional_zeros'](v, z)
+    ok_ascii58(t, len(t))
+    round256(s)
+    return (digits_ok_upto(58, t, len(t)), ascii_upto(t, len(t)),
+            positional(256, dval_upto(58, t, len(t)), zpre_upto(58, t, len(t))) == s)
